@@ -26,6 +26,8 @@ pub enum Cmd {
 	Send(usize, Value),
 	TrySend(usize, Value),
 	SendTimeout(usize, Value, u64),
+	/// `send_timeout`; if it times out, the message that the error hands back is sent again with `send` (which waits)
+	SendTimeoutResend(usize, Value, u64),
 	/// wait (at most the given virtual ms) for `sink.closed()`
 	WaitClosed(usize, u64),
 	/// end the handler with this close value (all sinks are dropped first, in index order)
@@ -108,6 +110,8 @@ pub struct Registry {
 	pub gates: Arc<Mutex<std::collections::HashMap<String, Arc<tokio::sync::Notify>>>>,
 	/// tags of `hold` calls whose handler has started
 	pub holding: Arc<Mutex<Vec<String>>>,
+	/// how often a message handed back by a timed-out `send_timeout` was sent again
+	pub resends: Arc<std::sync::atomic::AtomicUsize>,
 }
 
 impl Registry {
@@ -159,6 +163,7 @@ async fn drive(tag: String, pending: PendingSubscriptionSink, reg: Registry) -> 
 		let mut closed_after = None;
 		let mut done = false;
 		let mut panic_now = false;
+		let mut resent = false;
 		let reply = match cmd {
 			Cmd::Panic => {
 				panic_now = true;
@@ -240,6 +245,22 @@ async fn drive(tag: String, pending: PendingSubscriptionSink, reg: Registry) -> 
 				}
 				None => Reply::NotApplicable,
 			},
+			Cmd::SendTimeoutResend(i, v, ms) => match sinks.get(i).and_then(|s| s.as_ref()) {
+				Some(s) => {
+					closed_before = Some(s.is_closed());
+					let r = match s.send_timeout(SubscriptionMessage::from(raw(&v)), Duration::from_millis(ms)).await {
+						Ok(()) => Ok(()),
+						Err(jsonrpsee_core::server::SendTimeoutError::Closed(_)) => Err("closed"),
+						Err(jsonrpsee_core::server::SendTimeoutError::Timeout(msg)) => {
+							resent = true;
+							s.send(msg).await.map_err(|_| "disconnected")
+						}
+					};
+					closed_after = Some(s.is_closed());
+					Reply::Sent(r)
+				}
+				None => Reply::NotApplicable,
+			},
 			Cmd::WaitClosed(i, ms) => match sinks.get(i).and_then(|s| s.as_ref()) {
 				Some(s) => Reply::ClosedResolved(tokio::time::timeout(Duration::from_millis(ms), s.closed()).await.is_ok()),
 				None => Reply::NotApplicable,
@@ -259,6 +280,9 @@ async fn drive(tag: String, pending: PendingSubscriptionSink, reg: Registry) -> 
 				Reply::Returning
 			}
 		};
+		if resent {
+			reg.resends.fetch_add(1, std::sync::atomic::Ordering::SeqCst);
+		}
 		let _ = reply_tx.send(Timed { reply, before, after: ticket(), closed_before, closed_after });
 		if panic_now {
 			panic!("{}: subscription handler panics while holding its sinks", crate::handlers::PANIC_MARK);
